@@ -120,6 +120,9 @@ class SimFile(object):
         if 'w' in mode:
             disk.files[name] = b''
             self.data = None
+        elif 'a' in mode:
+            disk.files.setdefault(name, b'')      # append: created when missing, never truncated
+            self.data = None
         else:
             if name not in disk.files:
                 raise FileNotFoundError(name)
@@ -134,7 +137,7 @@ class SimFile(object):
         return False
 
     def close(self):
-        if 'w' in self.mode and not self.closed:
+        if ('w' in self.mode or 'a' in self.mode) and not self.closed:
             self.flush()
         if not self.closed:
             self.disk.closes += 1
